@@ -17,7 +17,6 @@
 from __future__ import annotations
 
 import logging
-from copy import copy
 from typing import TYPE_CHECKING
 from typing import Any
 from typing import ClassVar
@@ -120,8 +119,15 @@ class PydanticGrammar(BaseGrammar):
         self.__model_needs_rebuild = True
 
     def _copy(self, grammar: Self) -> None:  # noqa:D102
-        grammar.__model = copy(self.__model)
-        grammar.__model_needs_rebuild = self.__model_needs_rebuild
+        if hasattr(self.__model, "__internal__"):
+            # A model is a class: copying it returns the very same object.
+            # The grammar to be copied into already has its own model (see _clear),
+            # give it the same fields.
+            grammar.__model.model_fields.update(self.__model.model_fields)
+            grammar.__model_needs_rebuild = True
+        else:
+            grammar.__model = self.__model
+            grammar.__model_needs_rebuild = self.__model_needs_rebuild
 
     def _rename_element(self, current_name: str, new_name: str) -> None:  # noqa:D102
         fields = self.__model.model_fields
